@@ -10,6 +10,7 @@ import (
 	"os/exec"
 	"path/filepath"
 	"strings"
+	"time"
 
 	"verif/model"
 	"verif/refcrypt"
@@ -66,10 +67,25 @@ func C20(e *Env) {
 		if ps3 {
 			args = append(args, "--ps3-mode")
 		}
-		res := runCLI(e.Bin, out, append(args, dir, outFile)...)
+		// the same directory can be named in many ways (shell completion appends a slash)
+		spelled, spelling := dir, "absolute"
+		relDir, _ := filepath.Rel(out, dir)
+		switch i % 7 {
+		case 1, 2:
+			spelled, spelling = dir+"/", "absolute, trailing slash"
+		case 3:
+			spelled, spelling = dir+"/.", "absolute, trailing /."
+		case 4:
+			spelled, spelling = filepath.Dir(dir)+"/./"+filepath.Base(dir)+"//", "absolute with /./ and //"
+		case 5:
+			spelled, spelling = relDir, "relative"
+		case 6:
+			spelled, spelling = relDir+"/", "relative, trailing slash"
+		}
+		res := runCLI(e.Bin, out, append(args, spelled, outFile)...)
 		run.Eval(1)
-		run.Sig("make-iso ps3=%v", ps3)
-		wit := map[string]any{"tool": "make-iso", "ps3": ps3, "tree": name, "exit": res.code, "stderr": firstLines(string(res.stderr), 6)}
+		run.Sig("make-iso ps3=%v dir spelled %s", ps3, spelling)
+		wit := map[string]any{"tool": "make-iso", "ps3": ps3, "tree": name, "directory_argument": spelled, "exit": res.code, "stderr": firstLines(string(res.stderr), 6)}
 		if res.code != 0 {
 			run.Violate("tool-failed", "make-iso", fmt.Sprintf("make-iso on a tree of portable names exited %d: %s", res.code, firstLines(string(res.stderr)+string(res.stdout), 4)), wit)
 			continue
@@ -87,7 +103,7 @@ func C20(e *Env) {
 		}
 		if int64(len(got)) != ann || !bytes.Equal(maskImage(got, ps3), maskImage(served, ps3)) {
 			d := firstDiffIdx(maskImage(got, ps3), maskImage(served, ps3))
-			run.Violate("make-iso-differs", fmt.Sprintf("ps3=%v", ps3), fmt.Sprintf("make-iso output (%d bytes) differs from the image the server serves for the same directory (%d bytes) at offset %d (sector %d)", len(got), ann, d, d/2048), wit)
+			run.Violate("make-iso-differs", fmt.Sprintf("ps3=%v,dir=%s", ps3, spelling), fmt.Sprintf("[directory given as %q] make-iso output (%d bytes) differs from the image the server serves for the same directory (%d bytes) at offset %d (sector %d)", spelled, len(got), ann, d, d/2048), wit)
 		}
 		os.Remove(outFile)
 		// the same to standard output
@@ -252,6 +268,79 @@ func C20(e *Env) {
 			} else if res.code == 0 {
 				run.Violate("clobber-exit-zero", kind, fmt.Sprintf("%v with an already existing output (%s) exited 0", tool[:2], kind), wit)
 			}
+		}
+	}
+	// ---------------------------------------------------------------- an output that appears while the tool starts
+	// "Never overwrites an already existing output file" also covers a file that another process
+	// creates between the tool's look at the path and its opening of it. The window is made
+	// deterministic with strace: every stat-family call of the tool is held for a while *after* the
+	// kernel has answered it; the monitor watches the trace and, as soon as the tool has been told
+	// "no such file" for its output path, creates that file exclusively (so it provably existed
+	// before the tool opened anything there). Whatever the tool does next, the file must stay as
+	// created.
+	if _, err := exec.LookPath("strace"); err != nil {
+		run.Assume("strace not available: the appearing-output window was not explored")
+	} else {
+		sentinel := bytes.Repeat([]byte("created by somebody else while the tool was starting; must survive. "), 4000)
+		for ti, tool := range [][]string{{"make-iso", srcDir}, {"decrypt", "redump", in, keyf}, {"decrypt", "3k3y", in3}} {
+			target := filepath.Join(victims, fmt.Sprintf("appearing_%d.iso", ti))
+			trace := filepath.Join(out, fmt.Sprintf("appearing_%d.strace", ti))
+			os.Remove(target)
+			os.Remove(trace)
+			args := append([]string{"-f", "-qq", "-o", trace, "-e", "trace=newfstatat,statx,stat,lstat,access,faccessat,faccessat2", "-e", "inject=newfstatat,statx,stat,lstat,access,faccessat,faccessat2:delay_exit=250000", e.Bin}, append(append([]string{}, tool...), target)...)
+			cmd := exec.Command("strace", args...)
+			cmd.Dir = out
+			cmd.Env = append(os.Environ(), "TZ=UTC", "HOME=/nonexistent")
+			var se bytes.Buffer
+			cmd.Stderr = &se
+			must(cmd.Start())
+			done := make(chan struct{})
+			go func() { cmd.Wait(); close(done) }()
+			planted, sawLook := false, false
+		watch:
+			for {
+				select {
+				case <-done:
+					break watch
+				default:
+				}
+				if b, err := os.ReadFile(trace); err == nil && !planted {
+					for _, ln := range strings.Split(string(b), "\n") {
+						if strings.Contains(ln, "\""+target+"\"") && strings.Contains(ln, "ENOENT") {
+							sawLook = true
+							if f, err := os.OpenFile(target, os.O_WRONLY|os.O_CREATE|os.O_EXCL, 0o600); err == nil {
+								f.Write(sentinel)
+								f.Close()
+								planted = true
+							}
+							break
+						}
+					}
+				}
+				time.Sleep(2 * time.Millisecond)
+			}
+			run.Eval(1)
+			wit := map[string]any{"tool": tool, "target": target, "exit": cmd.ProcessState.ExitCode(), "stderr": firstLines(se.String(), 4)}
+			switch {
+			case !sawLook:
+				// the tool never asked whether the path exists before opening it: no window of this kind
+				run.Count("appearing_output_no_lookup_seen", 1)
+				run.Sig("%s with an output appearing: no separate look at the path", strings.Join(tool[:min(2, len(tool))], " "))
+			case !planted:
+				run.Count("appearing_output_not_planted", 1)
+			default:
+				run.Sig("%s with an output appearing after the tool looked", strings.Join(tool[:min(2, len(tool))], " "))
+				run.Count("appearing_output_planted", 1)
+				got, err := os.ReadFile(target)
+				if err != nil || !bytes.Equal(got, sentinel) {
+					d := -1
+					if err == nil {
+						d = firstDiffIdx(got, sentinel)
+					}
+					run.Violate("clobbered", "appeared-after-lookup", fmt.Sprintf("%v: the output path did not exist when the tool looked, another process then created it (exclusively, %d bytes) before the tool opened it; afterwards the file is changed (err=%v, length %d, first difference at %d, tool exit %d)", tool[:2], len(sentinel), err, len(got), d, cmd.ProcessState.ExitCode()), wit)
+				}
+			}
+			os.Remove(target)
 		}
 	}
 	CrashCheck(e, p, "c20 worker", nil)
